@@ -12,6 +12,7 @@ using namespace vh;
 
 static Rng rng;
 static int g_pipe_w = -1;
+static std::string g_child_err;
 
 static void child_sig(int sig, siginfo_t *si, void *) {
     char b[64]; int n = snprintf(b, sizeof b, "S %d %lu\n", sig, (unsigned long) si->si_addr);  // snprintf: not formally async-safe, fine in a dying single-threaded child
@@ -38,7 +39,9 @@ static Outcome run_case(const Kind &B, const Holder &like, const std::string &in
         struct sigaction sa; memset(&sa, 0, sizeof sa); sa.sa_sigaction = child_sig; sa.sa_flags = SA_SIGINFO | SA_NODEFER;
         static char alt[1 << 15]; stack_t ss; ss.ss_sp = alt; ss.ss_size = sizeof alt; ss.ss_flags = 0; sigaltstack(&ss, nullptr); sa.sa_flags |= SA_ONSTACK;
         int sigs[] = {SIGSEGV, SIGBUS, SIGABRT, SIGFPE, SIGILL, SIGALRM}; for (int s: sigs) sigaction(s, &sa, nullptr);
-        int dn = open("/dev/null", O_WRONLY); dup2(dn, 2);
+        // the child's stderr (library messages, and the reports of gcc's libubsan, which ignores log_path) goes to a file next to
+        // the event log whose name the runner's sanitizer-log parser picks up
+        int dn = g_child_err.empty() ? open("/dev/null", O_WRONLY) : open(g_child_err.c_str(), O_WRONLY | O_CREAT | O_APPEND, 0600); if (dn < 0) dn = open("/dev/null", O_WRONLY); dup2(dn, 2);
         alarm(30);
         HP im; bool good = true; long pos = -1;
         std::istringstream is(input, std::ios::binary); FILE *f = nullptr;
@@ -78,7 +81,7 @@ static std::map<std::string, uint64_t> tally;
 // classify; returns violation key or ""
 static std::string classify(const Outcome &o, int tr, std::string &cls) {
     if (o.timeout) { cls = "hang"; return "import:hang"; }
-    if (o.exit_code == 97 || o.exit_code == 96) { cls = "sanitizer-report"; return ""; /* routed from the sanitizer log by the runner */ }
+    if (o.exit_code == 97 || o.exit_code == 96) { cls = "sanitizer-report"; return "import:sanitizer-stopped-the-import"; /* the report itself is routed from the logs by the runner */ }
     if (o.sig && !o.returned) {
         if (o.sig == SIGSEGV || o.sig == SIGBUS) { if (o.addr < 4096) { cls = "terminated:null-deref"; return ""; } cls = "wild-access"; return "import:wild-access"; }
         cls = "terminated:sig" + std::to_string(o.sig); return "";
@@ -117,6 +120,7 @@ int main(int argc, char **argv) {
     install_crash_handler();
     uint64_t seed = args.i("seed", 1);
     std::string mode = args.s("mode", "prefix");
+    { std::string op = args.s("out", "-"); if (op.size() > 6 && op.substr(op.size() - 6) == ".jsonl") g_child_err = op.substr(0, op.size() - 6) + ".san.child"; }
     int shard = args.i("shard", 0), nshards = args.i("nshards", 1);
     int max_offsets = args.i("max_offsets", 0);   // 0 = every offset (exhaustive)
     std::string only = args.s("kind", "");
@@ -172,12 +176,31 @@ int main(int argc, char **argv) {
                 char cell[128]; snprintf(cell, sizeof cell, "substitute:%s->%s", K[a].name.c_str(), K[b].name.c_str()); out.cell(cell);
             }
         }
+        // inputs that are not exports of anything: empty lines, over-long lines, line-buffer boundaries, NUL bytes, binary
+        // noise with many empty lines, None contains a title line.
+        std::vector<std::pair<std::string, std::string>> hostile;
+        hostile.push_back({"single-newline", "\n"}); hostile.push_back({"newlines", "\n\n\n\n"}); hostile.push_back({"cr-newline", "\r\n\r\n"}); hostile.push_back({"lone-cr", "\r"});
+        hostile.push_back({"nul-bytes", std::string(16, '\0')}); hostile.push_back({"nul-then-newline", std::string("\0\n\0\n", 4)});
+        for (int len: {1, 255, 256, 1023, 1024, 4095, 4096, 8191, 8192, 8193, 20000}) { hostile.push_back({"line-of-" + std::to_string(len) + "-no-newline", std::string(len, 'A')}); hostile.push_back({"line-of-" + std::to_string(len), std::string(len, 'A') + "\n"}); }
+        { std::string nz(65536, 0); Rng r2(seed + 99); for (auto &ch: nz) { uint32_t v = r2.below(8); ch = v < 3 ? '\n' : v == 3 ? '\r' : (char) r2.below(256); } hostile.push_back({"binary-noise-with-empty-lines", nz}); }
+        for (size_t b = 0; b < K.size(); b++) {
+            std::vector<std::pair<std::string, std::string>> hs = hostile;
+            // (a valid export behind blank lines is not used: the stream transport skips leading white space and then reads a
+            // complete, correct object, which the property does not forbid)
+            for (auto &h: hs) for (int tr = 0; tr < 2; tr++) {
+                if (!mine()) continue;
+                VH_OP("hostile:%s->%s", h.first.c_str(), K[b].name.c_str());
+                Outcome o = run_case(K[b], *objs[b], h.second, tr);
+                record("hostile", K[b], K[b], tr, o, J().s("input", h.first).u("bytes", h.second.size()));
+            }
+            char cell[128]; snprintf(cell, sizeof cell, "hostile-text:%s:%zu-inputs", K[b].name.c_str(), hs.size()); out.cell(cell);
+        }
     } else if (mode == "corrupt") {
         for (size_t i = 0; i < K.size(); i++) {
             if (!only.empty() && K[i].name != only) continue;
             const std::string &full = bytes[i];
             // (a) every single-byte corruption of every type tag
-            for (size_t t: tags[i]) for (int byte = 0; byte < 4; byte++) for (int v = 0; v < 256; v++) {
+            if (!args.i("titles_only", 0)) for (size_t t: tags[i]) for (int byte = 0; byte < 4; byte++) for (int v = 0; v < 256; v++) {
                 if ((unsigned char) full[t + byte] == v) continue;
                 if (!mine()) continue;
                 std::string in = full; in[t + byte] = (char) v;
